@@ -2,10 +2,15 @@
    usage: scen_callrcu PROG SCHED ; ops per thread:
      C<i> call_rcu(object i)   c<i> call_rcu(object i) whose callback re-enqueues object i+1   B rcu_barrier()
      ( ) read-side section     H create and install a per-thread helper   K uninstall and free the per-thread helper
+     A create a helper and install it as the per-CPU helper of CPU 0   Z free_all_cpu_call_rcu_data()
      F call_rcu_before_fork(); [the point at which fork() would copy the address space: the pending callbacks of every helper are printed]; call_rcu_after_fork_parent()
    Helper threads are created by the library (pthread_create is interposed) and scheduled like any other thread. */
 #define RCU_MEMBARRIER
+#define _GNU_SOURCE
 #include <stdlib.h>
+#include <sched.h>
+/* every scenario thread "runs on CPU 0": call_rcu() picks the per-CPU helper of CPU 0 when one is installed (op A) */
+#define sched_getcpu() 0
 /* allocations of the library are named (and never recycled) so that helper structures have canonical names in the trace */
 void *vs_named_malloc(size_t sz); void vs_named_free(void *p);
 #define malloc(x) vs_named_malloc(x)
@@ -27,7 +32,9 @@ void *vs_named_malloc(size_t sz){ void *p=calloc(1,sz<16?16:sz);
 	if(sz==sizeof(struct call_rcu_data) && ncrd<8){ sprintf(crn[ncrd],"crd%d",ncrd); vs_region(p,sz,crn[ncrd]); crds[ncrd++]=p; }
 	else if(nm<64){ sprintf(mnames[nm],"m%d",nm); vs_region(p,sz<16?16:sz,mnames[nm]); nm++; }
 	return p; }
-void vs_named_free(void *p){ (void)p; }
+void vs_retire(const void *p, size_t sz);
+/* memory is never recycled; a released call_rcu_data is quarantined: every later access to it is reported (UAF) */
+void vs_named_free(void *p){ for(int k=0;k<ncrd;k++) if(crds[k]==p) vs_retire(p,sizeof(struct call_rcu_data)); }
 static void cb(struct rcu_head *h){ struct obj *o=caa_container_of(h,struct obj,h);
 	vs_call("cb",o->id); o->ran++;
 	if(o->chain){ struct obj *n=&O[o->id+1]; vs_quiet_begin(); name_crd(get_call_rcu_data()); vs_quiet_end(); vs_call("call_rcu",n->id); call_rcu(&n->h,cb); vs_ret("call_rcu",n->id); }
@@ -42,6 +49,8 @@ static void body(int t){
 			/* resolving (and possibly creating) the helper is library code too, but naming its region must not be scheduled */
 			struct call_rcu_data *c=get_call_rcu_data(); vs_quiet_begin(); name_crd(c); vs_quiet_end();
 			vs_call("call_rcu",o->id); call_rcu(&o->h,cb); vs_ret("call_rcu",o->id); break; }
+		case 'A': { vs_call("mkcpuhelper",0); struct call_rcu_data *c=create_call_rcu_data(0,0); int r=set_cpu_call_rcu_data(0,c); if(r) call_rcu_data_free(c); vs_ret("mkcpuhelper",(unsigned long)r); break; }
+		case 'Z': vs_call("freecpuhelpers",0); free_all_cpu_call_rcu_data(); vs_ret("freecpuhelpers",0); break;
 		case 'F': { vs_call("beforefork",0); call_rcu_before_fork(); vs_ret("beforefork",0);
 			vs_quiet_begin();
 			for(int k=0;k<ncrd;k++){ char buf[256]; int l=0; buf[0]=0; struct cds_wfcq_node *n=crds[k]->cbs_head.node.next; int g=0;
